@@ -435,7 +435,8 @@ class ConfigParser(object):
 
     # Process overrides
     for override in overrides:
-      if not cp.has_option(override.section, override.key):
+      # (no file holds a section without a name: an item given as ':KEY' does not exist)
+      if not override.section or not cp.has_option(override.section, override.key):
         raise ConfigOverrideException(
           "Entry [{section}]: '{key}' not found in configuration file when processing overrides (value = {value})".format(
           section = override.section, key = override.key, value = override.value))
@@ -450,6 +451,11 @@ class ConfigParser(object):
 
     # Add additional values
     for override in additional:
+      if not override.section:
+        raise ConfigOverrideException(
+          "Entry [{section}]: '{key}' cannot be added, the section name is empty (value = {value})".format(
+          section = override.section, key = override.key, value = override.value))
+
       if cp.has_option(override.section, override.key):
         raise ConfigOverrideDuplicateException(
           "Entry [{section}]: '{key}' already exists in configuration file whilst adding value = {value}".format(
